@@ -128,6 +128,17 @@ def model_run(sigma, m, N):
 
 
 # ------------------------------------------------------------------ case space
+
+def _dedupe(cases_):
+    """the same cell can be listed by two enumerations (e.g. a tall shape that the thorough bound also reaches): keep the first."""
+    seen, out_ = set(), []
+    for c in cases_:
+        if c["key"] not in seen:
+            seen.add(c["key"])
+            out_.append(c)
+    return out_
+
+
 def cases(tier, seed):
     out = []
     M = 4 if tier == "quick" else 7
@@ -197,7 +208,7 @@ def cases(tier, seed):
             for r in range(rows):
                 for mode in ("LU", "LUP"):
                     out.append({"key": f"generic/m={m}/n={n}/row={r}/{mode}", "cls": "generic", "m": m, "n": n, "row": r, "mode": mode})
-    return out
+    return _dedupe(out)
 
 
 # ------------------------------------------------------------------ oracle
